@@ -57,6 +57,9 @@ class Gen:
             return self.r.choice(NUL_TOPICS)
         if r < 0.08:
             return XSCTX
+        if r < 0.11:
+            # topics that merely start with the registration topic are ordinary topics
+            return self.r.choice([XSCTX + ".note", XSCTX + "ual", XSCTX[:-1]])
         t = self.r.choice(TOPICS[: self.p.get("ntopics", len(TOPICS))])
         self.topics_used.add(t)
         return t
@@ -604,23 +607,45 @@ def deep_probe_case(case, trace):
         if op.get("op") == "append" and isinstance(e["obs"].get("ok"), dict):
             ids.add(e["obs"]["ok"]["id"])
         d = e.get("dump") or {}
+        for c in d.get("contexts", []):          # whatever the implementation's registry holds is tried as a context
+            if isinstance(c, str):
+                ctxs.add(c)
         for _, f in d.get("stream", []):
             if isinstance(f, dict) and "ctx" in f:
                 ctxs.add(f["ctx"]); topics.add(f["topic"]); ids.add(f["id"])
+    # the case is executed again from scratch and every id will be a different one: refer to contexts and frames by
+    # the op that produced them ({"ref": i}), as the cases themselves do
+    sym = {ZERO: ZERO}
+    for i, e in enumerate(trace):
+        op = e["op"]
+        if op.get("op") == "append" and isinstance(e["obs"].get("ok"), dict):
+            sym.setdefault(e["obs"]["ok"]["id"], {"ref": i})
+        if op.get("op") == "import" and "ok" in e["obs"] and isinstance(op.get("frame"), dict):
+            sym.setdefault(op["frame"].get("id"), {"ref": i})
+
+    def symbolic(vals):
+        out, seen = [], set()
+        for v in sorted(vals):
+            sv = sym.get(v)
+            k = json.dumps(sv, sort_keys=True)
+            if sv is not None and k not in seen:
+                seen.add(k); out.append(sv)
+        return out
+    ctxs, ids = symbolic(ctxs), symbolic(ids)
     ops = list(case["ops"])
     def sweep():
-        for c in sorted(ctxs):
+        for c in ctxs:
             ops.append({"op": "read_sync", "ctx": c, "last": None, "limit": None})
             ops.append({"op": "append", "topic": "70726f6265", "ctx": c, "ttl": "ephemeral", "meta": None, "hash": None})
             for t in sorted(topics):
                 if "00" not in [t[j:j + 2] for j in range(0, len(t), 2)]:
                     ops.append({"op": "head", "topic": t, "ctx": c})
         ops.append({"op": "read_sync", "ctx": None, "last": None, "limit": None})
-        for i in sorted(ids):
+        for i in ids:
             ops.append({"op": "get", "id": i})
     sweep()
     # let head:1 collection count what the index holds, then look again
-    for c in sorted(ctxs):
+    for c in ctxs:
         for t in sorted(topics):
             if "00" not in [t[j:j + 2] for j in range(0, len(t), 2)] and t != hx(XSCTX):
                 ops.append({"op": "append", "topic": t, "ctx": c, "ttl": "head:1", "meta": None, "hash": None})
